@@ -482,3 +482,31 @@ def multi_range_over_nodes(t0: str, t1: str, t2: str, t3: str, k: int, as_tree: 
         and run('for2_child') == [tags[i] + tags[j] + tags[0] for i in kids for j in kids] \
         and run('for3_mixed', k=k) == m_for3 and run('some2_nodes') == [m_some] and run('every2_nodes') == [m_every] \
         and run('some_focus') == [tags[0] == 'a']
+
+
+# --- added after a defect reported during round 3: operands of the comma operator are each evaluated with the focus of the whole ---------
+#     expression (an early-exit consumer of a filter in one operand must not move the context item seen by the next operand)
+
+T.update(parse_all({
+    'comma_focus_map': '$S ! (exists(($a, $b)[. gt $k]), .)',
+    'comma_focus_for': 'for $x in $S return (exists(($a, $b)[. gt $k]), $x)',
+    'comma_focus_pred': '$S[(exists(($a, $b)[. gt $k]), .)[2] = $k]',
+    'comma_focus_arg': '$S ! count((head(($a, $b)[. gt $k]), .[. gt $k]))',
+}))
+
+
+@ob(budget=200, bound='S: 0..3 unbounded ints; a, b, k unbounded: comma operands after a filter consumed by exists()/head() see the outer focus '
+                      '(simple map, predicate, function argument) = the for-expression / list model',
+    funcs=['elementpath/xpath2/_xpath2_operators.py:evaluate__comma_operator', 'elementpath/xpath30/_xpath30_operators.py:select__simple_map_operator'])
+def comma_operands_share_focus(s0: int, s1: int, s2: int, n: int, a: int, b: int, k: int) -> bool:
+    """
+    pre: 0 <= n <= 3
+    post: _
+    """
+    S = _S(s0, s1, s2, n)
+    e = a > k or b > k
+    hits = (1 if e else 0)
+    return ev(T['comma_focus_map'], S=S, a=a, b=b, k=k) == [w for x in S for w in (e, x)] \
+        and ev(T['comma_focus_for'], S=S, a=a, b=b, k=k) == [w for x in S for w in (e, x)] \
+        and ev(T['comma_focus_pred'], S=S, a=a, b=b, k=k) == [x for x in S if x == k] \
+        and ev(T['comma_focus_arg'], S=S, a=a, b=b, k=k) == [hits + (1 if x > k else 0) for x in S]
